@@ -131,6 +131,7 @@ func c04Doc(place [][2]int) string {
 }
 
 func c04Enumerate(tier string, emit func(*eng.Case)) {
+	emit = withDecor(decorEvery(tier), emit)
 	var opts [][2]int
 	for ci := range c04Carriers {
 		for si := range c04Slots {
@@ -255,7 +256,7 @@ func c04Check(c *eng.Case) *eng.Outcome {
 		// the bytes go through ApplyForReader; the reference reading of the page is still ours
 		var res *distiller.Result
 		var err error
-		pi := eng.Protect(func() { res, err = distiller.ApplyForReader(strings.NewReader(c.HTML), nil) })
+		pi := eng.Protect(func() { res, err = distiller.ApplyForReader(strings.NewReader(ora.DecoratedHTML(c)), nil) })
 		if pi != nil {
 			o.Skipped = pi.Sig()
 			return o
@@ -264,7 +265,7 @@ func c04Check(c *eng.Case) *eng.Outcome {
 			o.Skipped = "error"
 			return o
 		}
-		a = analyseRes(ora.Parse(c.HTML), res)
+		a = analyseRes(ora.Parse(ora.DecoratedHTML(c)), res)
 	} else {
 		a = analyse(c, o)
 	}
@@ -413,7 +414,7 @@ func init() {
 			if tier == "thorough" {
 				k = 3
 			}
-			return map[string]any{"max_placements": k, "carriers": len(c04Carriers), "slots": len(c04Slots)}
+			return map[string]any{"decorated_variants": decorBound(tier), "max_placements": k, "carriers": len(c04Carriers), "slots": len(c04Slots)}
 		},
 		Assumptions: []string{"'display : none' (space before the colon) and CSS comments inside the value are observe-only"},
 	})
